@@ -416,8 +416,17 @@ def gen_case(rng, model, force, ncrops):
         maxv = rng.choice([12, 40])
     if force.get("big_radiometry"):
         maxv = 4000
+    if force.get("wide_invalid"):   # a strip several 50-window blocks wide
+        rows, cols = rng.randrange(24, 34), rng.randrange(130, 170)
     left, right, ml, mr = gen_scene(rng, rows, cols, maxv, (rng.random() < 0.6, rng.random() < 0.6))
     crops = []
+    if force.get("wide_invalid"):
+        # a masked area wider than a block of the filters on the left of the scene, and a tile taken on its right
+        band = rng.randrange(54, 70)
+        ml = np.zeros((rows, cols), dtype=np.int16) if ml is None else ml
+        ml[:, :band] = 2
+        c0 = band + rng.randrange(2, 8)
+        crops.append([0, c0, rows, cols - c0])
     for j in range(ncrops):
         h = rng.randrange(2 * rr + 4, rows + 1)
         w = rng.randrange(rl + rm + 6, cols + 1)
@@ -448,6 +457,8 @@ FORCED = [
     {"measure": "census", "cbca": True, "validation": True},
     {"measure": "sad", "filter": "bilateral", "validation": True, "cbca": False},
 ]
+WIDE = [{"measure": "sad", "filter": "bilateral", "cbca": False, "validation": False, "wide_invalid": True},
+        {"measure": "census", "filter": "median", "cbca": False, "validation": False, "wide_invalid": True}]
 BIG = [{"measure": "sad", "filter": "median", "cbca": False, "big": True, "validation": False},
        {"measure": "census", "filter": "bilateral", "cbca": False, "big": True, "validation": True}]
 
@@ -507,6 +518,11 @@ def run(ctx):
                 ctx.count("refinement_" + c["refinement_method"])
         ctx.count("masks_left" if case["mask_left"] is not None else "no_mask_left")
         ctx.count("masks_right" if case["mask_right"] is not None else "no_mask_right")
+        check_case(ctx, model, case)
+    # a masked area wider than the 50 / 100-window blocks of the filters, tiles taken beside it
+    for i in range(2 if ctx.tier == "quick" else 16):
+        case = gen_case(rng, model, dict(WIDE[i % len(WIDE)]), 1)
+        ctx.count("scenes_with_a_masked_area_wider_than_a_filter_block")
         check_case(ctx, model, case)
     # 12-bit radiometry through zncc: the integral images of the means / variances are running sums from the first
     # row of the tile; they are exact (float64 sums of integers), hence independent of where the tile starts
